@@ -20,7 +20,7 @@ open JSight JSight.Build JSight.Gen JSight.BuildInv JSight.BuildPerm JSight.Buil
 /-! ### part A: the stages of `compile` -/
 
 theorem compile_iff (banned : List Kind) (f : List BTree) (c : Cat) : compile banned f = .ok c ↔
-    ∃ c₀ x, collectTags f {} = .ok c₀ ∧ checkTypeNames f = .ok () ∧ pathsForest [] f none = .ok x ∧
+    ∃ c₀ x, collectTags f {} = .ok c₀ ∧ checkTypeNames f = .ok () ∧ pathsForest [] f [] = .ok x ∧
       headCheck f = .ok () ∧ addForest banned [] f c₀ = .ok c ∧ chk c = .ok () := by
   rw [compile_eq]
   constructor
@@ -51,7 +51,7 @@ theorem headCheck_single {t : BTree} (ht : t.dir.kind ≠ .Jsight) : headCheck [
 theorem collectTags_single_notTag {t : BTree} (h : t.dir.kind ≠ .TAG) (c : Cat) : collectTags [t] c = .ok c := by
   rw [collectTags_cons, ctStep_notTag h, ok_bind, collectTags_nil]
 
-theorem pathsForest_single (anc : List BDir) (t : BTree) (last : Option Nat) :
+theorem pathsForest_single (anc : List BDir) (t : BTree) (last : List Nat) :
     pathsForest anc [t] last = pathsTree anc t last := by
   rw [pathsForest_cons]
   cases pathsTree anc t last with
@@ -76,7 +76,7 @@ theorem compile_snoc_iff (banned : List Kind) (f : List BTree) (t : BTree) (c' :
     (hty : t.dir.kind ≠ .Type) (hj : t.dir.kind ≠ .Jsight) :
     compile banned (f ++ [t]) = .ok c' ↔
       ∃ c₀ x y c, f ≠ [] ∧ collectTags f {} = .ok c₀ ∧ checkTypeNames f = .ok () ∧
-        pathsForest [] f none = .ok x ∧ pathsTree [] t x = .ok y ∧ headCheck f = .ok () ∧
+        pathsForest [] f [] = .ok x ∧ pathsTree [] t x = .ok y ∧ headCheck f = .ok () ∧
         addForest banned [] f c₀ = .ok c ∧ addBranch banned [] t c = .ok c' ∧ chk c' = .ok () := by
   rw [compile_iff]
   constructor
